@@ -17,7 +17,9 @@
 #include <signal.h>
 #include <cstdio>
 #include <cstdlib>
+#include <cstdlib>
 #include <deque>
+#include <locale>
 #include <stdexcept>
 #include <functional>
 #include <iostream>
@@ -967,9 +969,23 @@ void run_line(std::ostream &out, world &w, std::string const &line)
 
 }  // namespace
 
+// a host program that has installed its own global locale: digits grouped in
+// threes, a decimal comma - what "de_DE"-like locales do to iostreams
+struct grouping_punct : std::numpunct<char>
+{
+    char do_thousands_sep() const override { return '.'; }
+    char do_decimal_point() const override { return ','; }
+    std::string do_grouping() const override { return "\1"; }    // every digit, so small numbers show it too
+};
+
 int main(int argc, char **argv)
 {
     std::string const mode = argc > 1 ? argv[1] : "run";
+    if (std::getenv("VERIF_HOST_LOCALE") != nullptr)
+    {
+        std::locale::global(std::locale(std::locale::classic(), new grouping_punct));
+        std::cout.imbue(std::locale::classic());      // the harness's own printing stays plain
+    }
     // the stdout modes run like an ordinary program (default stream
     // synchronisation); only the observation modes untie the streams for speed
     if (mode == "run" || mode == "threads") std::ios::sync_with_stdio(false);
